@@ -112,6 +112,9 @@ NUMBER_TOKENS = [
 ]
 
 
+LONG_UNITS = ["a", "\u00e9", _pair(0x1F600), "\\", '"', "\n", "ab\u2028"]
+
+
 def gen_number(r):
     k = r.below(10)
     if k < 5:
@@ -129,14 +132,14 @@ def gen_number(r):
 
 
 def gen_string(r, avoid=(), long_ok=True):
-    k = r.below(60)
-    if k < 24:
+    k = r.below(120)
+    if k < 48:
         s = r.choice(STRINGS)
-    elif k < 27 and AVOID_LONE not in avoid:
+    elif k < 54 and AVOID_LONE not in avoid:
         s = r.choice(LONE_STRINGS)
-    elif k < 28 and long_ok:
-        unit = r.choice(["a", "\u00e9", _pair(0x1F600), "\\", '"', "\n", "ab\u2028"])
-        s = unit * r.choice([100, 255, 256, 256, 1000, 1000, 4097])
+    elif k < 55 and long_ok:
+        unit = r.choice(LONG_UNITS)
+        s = unit * r.choice([100, 100, 255, 256, 256, 300, 1000])
     else:
         n = r.below(13)
         out = []
